@@ -27,6 +27,9 @@ CHECKS["C16"] = ("order-kind dataflow per dispatch branch, CFG dominator (must-p
 CHECKS["C19"] = ("exception-escape analysis by abstract interpretation of the real FullGrid constructors and getters over the exhaustive size box (attribute definedness per selected receiver class, exact sequence lengths, argument binding, result shapes)",
     "For every (n_b, n_o, n_t) of the box and both position modes the constructors and five getters are interpreted abstractly on the current source (sizes are the only concrete data); AttributeError / IndexError / TypeError escapes and wrong result shapes are reported with the call path and the sizes. Errors inside scipy/qhull and value-dependent assertions are not decided.", "6 C19")
 
+CHECKS["C05"] = ("abstract interpretation of the position-grid kernels over an abstractly constructed object graph with symbolic n_t>=2, n_o>=4: exact polynomial values piecewise in the shell index compared with the property's formulas; layout (LAYOUT), symmetric emission (MIRROR), dimension (DEG) rules",
+    "Every volume, radial/lateral border and radial/lateral distance of the default position grid is derived symbolically (exact polynomials in the radii and opaque unit-sphere quantities) and compared with the formulas of the property on the first, inner and last shell; shell-major layout, +-n_o diagonals, block placement and per-shell masks are decided by polynomial identities. Universal in n_t, n_o, radii. The unit-sphere quantities themselves belong to C03.", "6 C05")
+
 NOT_APPLICABLE = {
     "C06": "Cartesian Voronoi cell geometry is produced by qhull and floating-point predicates (polygon vertex ordering, F2); no static abstract domain in reach separates the failing coordinate configurations; the one structural clause is too thin to claim the property (DESIGN.md section 6, C06).",
     "C07": "distinctness/separation/hemisphere membership of computed coordinates are numerical facts; the row-count and unit-norm clauses are already run-time assertions, so a static restatement would only test the presence of those asserts (DESIGN.md section 6, C07).",
